@@ -797,10 +797,13 @@ func (ex *Exec) run(st *State) {
 				return
 			}
 		default:
+			// (a deferred function runs while the state is already panicking: only a panic
+			// raised by this very step starts an unwinding)
+			was := st.panicking
 			if forked := ex.step(st, fr, in); forked {
 				return
 			}
-			if st.panicking {
+			if st.panicking && !was {
 				if done := ex.unwind(st); done {
 					return
 				}
